@@ -215,7 +215,7 @@ func cmdVerify(args []string) {
 }
 
 func sortedKeys(m map[string]bool) []string {
-	var ks []string
+	ks := []string{}
 	for k := range m {
 		ks = append(ks, k)
 	}
